@@ -209,3 +209,13 @@ Lemma sampler_draw_gen_safe r : - 9223372036854775808 <= r < 9223372036854775808
 Proof. apply sampler_draw_clamped. Qed.
 Lemma sampler_draw_unclamped_refuted : sampler_draw false (-1) = None.
 Proof. reflexivity. Qed.
+
+(* ---------- DirectTransmission batch ticker: known finding ---------- *)
+Lemma batch_ticker_refuted : exists d, duration_accepted true d = true /\ d <> 0 /\ batch_ticker d = None.
+Proof. exists 3. split; [reflexivity|]. split; [discriminate|reflexivity]. Qed.
+Lemma batch_ticker_partial d : 4 <= d -> batch_ticker d <> None.
+Proof.
+  unfold batch_ticker. intros H.
+  assert (1 <= Z.quot d 4) by (apply Z.quot_le_lower_bound; lia).
+  destruct (Z.quot d 4 <=? 0) eqn:E; [lia|discriminate].
+Qed.
